@@ -52,6 +52,8 @@ int __real_pthread_cond_wait(pthread_cond_t *, pthread_mutex_t *);
 int __real_pthread_cond_signal(pthread_cond_t *);
 int __real_pthread_create(pthread_t *, const pthread_attr_t *, void *(*)(void *), void *);
 int __real_pthread_join(pthread_t, void **);
+int __real_pthread_mutex_init(pthread_mutex_t *, const pthread_mutexattr_t *);
+int __real_pthread_mutex_destroy(pthread_mutex_t *);
 int __real_select(int, fd_set *, fd_set *, fd_set *, struct timeval *);
 ssize_t __real_read(int, void *, size_t);
 ssize_t __real_write(int, const void *, size_t);
@@ -64,35 +66,83 @@ static const char *volatile g_phase = "init";
 static __thread int t_lib;            /* this thread is a library thread or inside a library call */
 static __thread unsigned t_rng;
 static __thread int t_role;           /* 0 application, 1 listener, 2 clientInput, 3 clientOutput */
-static volatile int g_force;          /* 1 = lost wake-up schedule, 2 = iterator use-after-free schedule, 3 = cursor brackets, 4 = shutdown join */
+static volatile int g_force;          /* 1 = lost wake-up schedule, 2 = iterator use-after-free schedule, 3 = cursor brackets, 4 = shutdown join,
+                                         5 = peer disconnects inside rfbNewFramebuffer, 6 = connection accepted inside rfbNewFramebuffer */
+static volatile int g_ended;          /* library threads whose thread function has returned */
+static __thread const char *t_call;   /* the API call the application thread is in (LIBCALL) */
+static __thread rfbClientPtr t_dying; /* this thread ran clientGoneHook for that record and goes on to free it */
 
-/* ---- known mutexes: class S(end) U(pdate) O(utput) R(efcount) of client slot k, C(ursor) */
+/* ---- mutex classes: S(end) U(pdate) O(utput) R(efcount) of a client, C(ursor), G = rfbClientListMutex,
+ * E = extMutex, X = a mutex the harness cannot name (reported: the model's table must account for every mutex).
+ * A client is identified by its accept order (slot); rfbNewClient links at the HEAD of the client list, so
+ * list position order = reverse slot order. */
 typedef struct { rfbClientPtr cl; int live; int gone; } slot_t;
 static slot_t slots[MAXCL];
 static int nslots;
 static pthread_mutex_t reg_mx = PTHREAD_MUTEX_INITIALIZER;
+static pthread_mutex_t *g_list_mx, *g_ext_mx;   /* learned at start-up (both are static in the library) */
+static volatile int g_learn;                     /* 1: the next mutex locked is rfbClientListMutex, 2: extMutex */
+/* every mutex the library has initialised and not destroyed (pthread_mutex_init/destroy wraps): finds the record of a
+ * connection that is already linked into the client list but not yet announced by newClientHook */
+#define MAXMX 8192
+static pthread_mutex_t *mx_reg[MAXMX];
+static int n_mx;
+static int reg_has(const void *m) { int i; for (i = 0; i < n_mx; i++) if ((const void *)mx_reg[i] == m) return 1; return 0; }
+static void reg_add(pthread_mutex_t *m) { if (!reg_has(m) && n_mx < MAXMX) mx_reg[n_mx++] = m; }
+static void reg_del(pthread_mutex_t *m) { int i; for (i = 0; i < n_mx; i++) if (mx_reg[i] == m) { mx_reg[i] = mx_reg[--n_mx]; return; } }
 
+static int in_rec(rfbClientPtr cl, pthread_mutex_t *m) {
+  if (m == &cl->sendMutex) return 'S';
+  if (m == &cl->updateMutex) return 'U';
+  if (m == &cl->outputMutex) return 'O';
+  if (m == &cl->refCountMutex) return 'R';
+  return 0;
+}
 static int classify(pthread_mutex_t *m, int *slot) {
-  int k;
+  int k, c;
   *slot = -1;
   if (S && m == &S->cursorMutex) return 'C';
-  for (k = 0; k < nslots; k++) if (slots[k].live) {
-    rfbClientPtr cl = slots[k].cl;
-    *slot = k;
-    if (m == &cl->sendMutex) return 'S';
-    if (m == &cl->updateMutex) return 'U';
-    if (m == &cl->outputMutex) return 'O';
-    if (m == &cl->refCountMutex) return 'R';
+  if (m == g_list_mx) return 'G';
+  if (m == g_ext_mx) return 'E';
+  for (k = nslots - 1; k >= 0; k--) if (slots[k].live && (c = in_rec(slots[k].cl, m))) { *slot = k; return c; }
+  /* the thread that ran clientGoneHook goes on to lock/unlock/destroy the record's mutexes before it frees it */
+  if (t_dying) for (k = nslots - 1; k >= 0; k--) if (slots[k].cl == t_dying && (c = in_rec(t_dying, m))) { *slot = k; return c; }
+  /* a record under construction: linked by rfbNewClient, newClientHook not called yet */
+  { static const size_t off[4] = { offsetof(rfbClientRec, sendMutex), offsetof(rfbClientRec, updateMutex),
+                                   offsetof(rfbClientRec, outputMutex), offsetof(rfbClientRec, refCountMutex) };
+    static const char nm[4] = { 'S', 'U', 'O', 'R' };
+    for (k = 0; k < 4; k++) {
+      const char *base = (const char *)m - off[k];
+      if (reg_has(base + off[0]) && reg_has(base + off[2]) && reg_has(base + off[3])) { *slot = nslots; return nm[k]; }
+    }
   }
-  *slot = -1;
-  return 'G';
+  return 'X';
 }
 
-#define MAXHELD 16
+/* for a misuse note only: name the mutex even when its record is being torn down by another thread */
+static int classify_any(pthread_mutex_t *m, int *slot) {
+  int c = classify(m, slot), k, d;
+  if (c != 'X') return c;
+  for (k = nslots - 1; k >= 0; k--) if ((d = in_rec(slots[k].cl, m))) { *slot = k; return d; }
+  return 'X';
+}
+#define MAXHELD 320
 static __thread pthread_mutex_t *t_held[MAXHELD];
 static __thread int t_nheld;
-/* observed pairs: [held class][acq class][same client?] */
-static volatile unsigned char pair_seen[128][128][2];
+/* observed pairs: [held class][acq class][relation: 0 '/', 1 '=', 2 '<' held client earlier in the list, 3 '>'] */
+static volatile unsigned char pair_seen[128][128][4];
+static const char rel_ch[4] = { '/', '=', '<', '>' };
+static int rel_of(int sh, int sa) { return sh == sa ? 1 : (sh < 0 || sa < 0) ? 0 : sh > sa ? 2 : 3; }
+/* mutex misuse seen by the wrap layer itself */
+static volatile int g_bad_unlock, g_held_at_return;
+static char g_misuse[400];
+static void misuse_note(const char *what, int cls, int slot) {
+  size_t l = strlen(g_misuse);
+  if (l + 80 < sizeof g_misuse)
+    snprintf(g_misuse + l, sizeof g_misuse - l, "%s%s:%c%d:in=%s", l ? "," : "", what, cls, slot,
+             t_call ? t_call : t_role == 1 ? "listener" : t_role == 2 ? "clientInput" : t_role == 3 ? "clientOutput" : "?");
+}
+static void misuse_note_m(const char *what, pthread_mutex_t *m) { int c, k; c = classify_any(m, &k); misuse_note(what, c, k); }
 
 static unsigned rnd(void) {
   if (!t_rng) t_rng = g_seed * 2654435761u ^ (unsigned)(uintptr_t)pthread_self() ^ 0x9e3779b9u;
@@ -108,8 +158,19 @@ static void perturb(void) {
   }
 }
 
+static volatile int g_connect_now;
+static volatile int g_idle_close;     /* the idle client closes its socket now */
+int __wrap_pthread_mutex_init(pthread_mutex_t *m, const pthread_mutexattr_t *a) {
+  if (t_lib) { __real_pthread_mutex_lock(&reg_mx); reg_add(m); __real_pthread_mutex_unlock(&reg_mx); }
+  return __real_pthread_mutex_init(m, a);
+}
+int __wrap_pthread_mutex_destroy(pthread_mutex_t *m) {
+  if (t_lib) { __real_pthread_mutex_lock(&reg_mx); reg_del(m); __real_pthread_mutex_unlock(&reg_mx); }
+  return __real_pthread_mutex_destroy(m);
+}
 int __wrap_pthread_mutex_lock(pthread_mutex_t *m) {
   int r;
+  if (g_learn && t_lib && m != &reg_mx) { if (g_learn == 1) g_list_mx = m; else g_ext_mx = m; g_learn = 0; }
   if (t_lib && m != &reg_mx) {
     int ca, sa, i;
     perturb();
@@ -117,12 +178,15 @@ int __wrap_pthread_mutex_lock(pthread_mutex_t *m) {
     ca = classify(m, &sa);
     for (i = 0; i < t_nheld; i++) {
       int ch, sh; ch = classify(t_held[i], &sh);
-      pair_seen[ch][ca][(sh == sa) ? 1 : 0] = 1;
+      pair_seen[ch][ca][rel_of(sh, sa)] = 1;
     }
     __real_pthread_mutex_unlock(&reg_mx);
     /* forced schedules (replay of the model's refutation witnesses) */
     if (g_force == 1 && t_role == 3 && ca == 'U') usleep(fsl(150000));   /* clientOutput between the state test and LOCK(updateMutex) */
     if (g_force == 2 && t_role == 0 && ca == 'R') usleep(fsl(200000));   /* iterator between reading the pointer and rfbIncrClientRef */
+    /* rfbNewFramebuffer between its locking pass and its unlocking pass (it takes cursorMutex there) */
+    if (g_force == 5 && t_role == 0 && ca == 'C') { g_idle_close = 1; usleep(fsl(400000)); }
+    if (g_force == 6 && t_role == 0 && ca == 'C') { g_connect_now = 1; usleep(fsl(400000)); }
   }
   r = __real_pthread_mutex_lock(m);
   if (t_lib && m != &reg_mx && t_nheld < MAXHELD) t_held[t_nheld++] = m;
@@ -132,6 +196,11 @@ int __wrap_pthread_mutex_unlock(pthread_mutex_t *m) {
   int i;
   if (t_lib && m != &reg_mx) {
     for (i = t_nheld - 1; i >= 0; i--) if (t_held[i] == m) { t_held[i] = t_held[--t_nheld]; break; }
+    if (i < 0) {                               /* UNLOCK of a mutex this thread does not hold */
+      __real_pthread_mutex_lock(&reg_mx);
+      g_bad_unlock++; misuse_note_m("unlock-not-held", m);
+      __real_pthread_mutex_unlock(&reg_mx);
+    }
   }
   { int cu = 0, su;
     if (g_force == 1 && t_lib && t_role == 0 && m != &reg_mx) { __real_pthread_mutex_lock(&reg_mx); cu = classify(m, &su); __real_pthread_mutex_unlock(&reg_mx); }
@@ -174,7 +243,7 @@ typedef struct { void *(*fn)(void *); void *arg; int role; } tramp_t;
 static void *tramp(void *p) {
   tramp_t t = *(tramp_t *)p; free(p);
   t_lib = 1; t_role = t.role;
-  return t.fn(t.arg);
+  { void *r = t.fn(t.arg); __sync_fetch_and_add(&g_ended, 1); return r; }
 }
 int __wrap_pthread_create(pthread_t *th, const pthread_attr_t *a, void *(*fn)(void *), void *arg) {
   if (t_lib) {
@@ -197,6 +266,7 @@ static void gone_hook(rfbClientPtr cl) {
   __real_pthread_mutex_lock(&reg_mx);
   for (k = 0; k < nslots; k++) if (slots[k].live && slots[k].cl == cl) { slots[k].live = 0; slots[k].gone++; break; }
   if (k == nslots) g_dupgone++;
+  t_dying = cl;
   __real_pthread_mutex_unlock(&reg_mx);
   __sync_fetch_and_add(&g_gone, 1);
 }
@@ -348,7 +418,29 @@ static void *client_main(void *p) {
   return NULL;
 }
 
-#define LIBCALL(stmt) do { t_lib = 1; stmt; t_lib = 0; } while (0)
+/* an API call of the application thread; when it returns the thread must not hold any library mutex */
+static void libcall_end(void) {
+  if (t_nheld) {
+    int i;
+    __real_pthread_mutex_lock(&reg_mx);
+    for (i = 0; i < t_nheld; i++) { g_held_at_return++; misuse_note_m("held-at-return", t_held[i]); }
+    __real_pthread_mutex_unlock(&reg_mx);
+    t_nheld = 0;
+  }
+}
+#define LIBCALL(stmt) do { t_lib = 1; t_call = #stmt; stmt; libcall_end(); t_call = NULL; t_lib = 0; } while (0)
+static void print_pairs(void) {
+  int a, b, r; printf("pairs");
+  for (a = 0; a < 128; a++) for (b = 0; b < 128; b++) for (r = 0; r < 4; r++) if (pair_seen[a][b][r]) printf(" %c%c%c", a, b, rel_ch[r]);
+  printf("\n");
+  if (g_misuse[0]) printf("#misuse %s\n", g_misuse);
+}
+static char *misuse_tok(void) {            /* one token for the result line */
+  static char b[420]; char *q;
+  snprintf(b, sizeof b, "%s", g_misuse[0] ? g_misuse : "-");
+  for (q = b; *q; q++) if (*q == ' ' || *q == '=') *q = '_';
+  return b;
+}
 
 /* listen on a private loopback port (other programs on this machine probe 59xx) */
 static int start_server(void) {
@@ -356,6 +448,11 @@ static int start_server(void) {
   S->autoPort = FALSE; S->port = 0; S->ipv6port = 0; S->httpDir = NULL; S->httpPort = 0; S->http6Port = 0;
   S->listenInterface = htonl(INADDR_LOOPBACK);
   LIBCALL(rfbInitServer(S));
+  { rfbClientIteratorPtr it;                 /* no client yet: the only mutex an iterator step takes is rfbClientListMutex */
+    LIBCALL(it = rfbGetClientIterator(S));
+    g_learn = 1; LIBCALL((void)rfbClientIteratorNext(it)); g_learn = 0;
+    LIBCALL(rfbReleaseClientIterator(it));
+    g_learn = 2; LIBCALL(((void)rfbGetExtensionIterator(), rfbReleaseExtensionIterator())); g_learn = 0; }
   for (i = 0; i < 200 && sock < 0; i++) {
     port = 21000 + (int)(((unsigned)getpid() * 37u + (unsigned)i * 101u) % 20000u);
     LIBCALL(sock = rfbListenOnTCPPort(port, htonl(INADDR_LOOPBACK)));
@@ -458,18 +555,13 @@ static int run_stress(unsigned seed, int ypct, int nstay, int nabrupt, int nslow
   { int w = 0; while (g_gone < g_new && w++ < sp(2000)) usleep(500); }
   LIBCALL(rfbScreenCleanup(S));
   alarm(0);
-  printf("result hang=0 new=%d gone=%d dupgone=%d cycles=%d stuck_after_cycles=%d zombies_after_cycles=%d stay=%d stay_ok=%d converged=%d created=%d joined=%d\n",
-         g_new, g_gone, g_dupgone, cycles_done, stuck, zombies, nstay + nslow, stay_ok, conv, g_created, g_joined);
-  {
-    int a, b, s; printf("pairs");
-    for (a = 0; a < 128; a++) for (b = 0; b < 128; b++) for (s = 0; s < 2; s++) if (pair_seen[a][b][s]) printf(" %c%c%c", a, b, s ? '=' : '/');
-    printf("\n");
-  }
+  printf("result hang=0 new=%d gone=%d dupgone=%d cycles=%d stuck_after_cycles=%d zombies_after_cycles=%d stay=%d stay_ok=%d converged=%d created=%d joined=%d bad_unlock=%d held_at_return=%d misuse=%s\n",
+         g_new, g_gone, g_dupgone, cycles_done, stuck, zombies, nstay + nslow, stay_ok, conv, g_created, g_joined, g_bad_unlock, g_held_at_return, misuse_tok());
+  print_pairs();
   free(fb); free(fb2);
   return 0;
 }
 
-static volatile int g_idle_close;
 static void *idle_client(void *p) {
   cli_t *c = (cli_t *)p;
   int fd = cl_connect(c->port);
@@ -496,6 +588,21 @@ static void *fur_client(void *p) {
   return NULL;
 }
 
+static volatile int g_usr1;
+static void on_usr1(int sig) { (void)sig; g_usr1++; }
+static int wait_gone(int target, int ms);
+/* connects as soon as the wrap layer says rfbNewFramebuffer is between its two passes */
+static void *late_connector(void *p) {
+  cli_t *c = (cli_t *)p; int fd, w = 0;
+  while (!g_connect_now && w++ < sp(10000)) usleep(200);
+  fd = cl_connect(c->port);
+  if (fd < 0 || cl_handshake(fd)) { c->ok = 1; return NULL; }
+  cl_fur(fd, 0); cl_read_msg(fd, c, 3000);
+  c->ok = 1;
+  while (!*c->stop) usleep(1000);
+  close(fd);
+  return NULL;
+}
 static int run_forced(int which) {
   int argc = 0, port; static cli_t c; pthread_t th; volatile int stop = 0; uint32_t *fb;
   g_seed = 7; g_yield_pct = 0;
@@ -527,7 +634,62 @@ static int run_forced(int which) {
     diff = 0;
     for (i = 0; i < W * H; i++) if (fb[i] != 0x00202020u) diff++;
     alarm(0);
-    printf("result hang=0 forced=cursor new=%d burned_pixels=%d\n", g_new, diff);
+    printf("result hang=0 forced=cursor new=%d burned_pixels=%d bad_unlock=%d held_at_return=%d misuse=%s\n", g_new, diff, g_bad_unlock, g_held_at_return, misuse_tok());
+    return 0;
+  }
+  if (which == 6) {
+    /* a connection is accepted while rfbNewFramebuffer is between its locking and its unlocking pass */
+    uint32_t *fb2 = (uint32_t *)calloc(W * H, 4); pthread_t ht; static cli_t cc;
+    LIBCALL(rfbRunEventLoop(S, -1, TRUE));
+    memset(&cc, 0, sizeof cc); cc.port = port; cc.stop = &stop;
+    __real_pthread_create(&ht, NULL, late_connector, &cc);
+    phase("newfb", 15);
+    g_force = 6;
+    LIBCALL(rfbNewFramebuffer(S, (char *)fb2, W, H, 8, 3, 4));
+    g_force = 0;
+    { int w = 0; while (!cc.ok && w++ < sp(5000)) usleep(1000); }
+    printf("presult mode=newfbaccept accepted_inside=%d bad_unlock=%d held_at_return=%d misuse=%s\n", g_new, g_bad_unlock, g_held_at_return, misuse_tok());
+    fflush(stdout);
+    stop = 1; __real_pthread_join(ht, NULL);
+    phase("shutdown", 15);
+    LIBCALL(rfbShutdownServer(S, TRUE));
+    alarm(0);
+    printf("result hang=0 forced=newfbaccept new=%d gone=%d bad_unlock=%d held_at_return=%d misuse=%s\n", g_new, g_gone, g_bad_unlock, g_held_at_return, misuse_tok());
+    return 0;
+  }
+  if (which == 7) {
+    /* a signal handler of the application runs on a library thread: select() returns -1/EINTR there */
+    int fd, served, torn, accepts, fd2; static cli_t cc; struct sigaction sa;
+    memset(&sa, 0, sizeof sa); sa.sa_handler = on_usr1; sa.sa_flags = SA_RESTART; sigaction(SIGUSR1, &sa, NULL);
+    LIBCALL(rfbRunEventLoop(S, -1, TRUE));
+    phase("eintr-connect", 30);
+    memset(&cc, 0, sizeof cc);
+    fd = cl_connect(port);
+    if (fd < 0 || cl_handshake(fd)) { printf("result error=connect\n"); return 1; }
+    cl_fur(fd, 0);
+    if (cl_read_msg(fd, &cc, 10000) != 0) { printf("result error=initial\n"); return 1; }
+    usleep(50000);                               /* idle now: clientInput sits in select(), clientOutput in WAIT */
+    phase("eintr-client", 40);
+    pthread_kill(slots[0].cl->client_thread, SIGUSR1);
+    usleep(100000);
+    cl_fur(fd, 0);
+    served = cl_read_msg(fd, &cc, 10000) == 0;
+    close(fd);
+    torn = wait_gone(1, 10000);
+    printf("presult mode=eintr served_after_signal=%d torn_down_after_close=%d usr1=%d\n", served, torn, g_usr1);
+    fflush(stdout);
+    phase("eintr-listener", 40);
+    pthread_kill(S->listener_thread, SIGUSR1);
+    usleep(100000);
+    fd2 = cl_connect(port);
+    accepts = fd2 >= 0 && cl_handshake(fd2) == 0;
+    printf("presult2 accepts_after_signal=%d usr1=%d\n", accepts, g_usr1);
+    fflush(stdout);
+    phase("shutdown", 15);
+    LIBCALL(rfbShutdownServer(S, TRUE));
+    alarm(0);
+    if (fd2 >= 0) close(fd2);
+    printf("result hang=0 forced=eintr new=%d gone=%d bad_unlock=%d held_at_return=%d misuse=%s\n", g_new, g_gone, g_bad_unlock, g_held_at_return, misuse_tok());
     return 0;
   }
   LIBCALL(rfbRunEventLoop(S, -1, TRUE));
@@ -535,20 +697,36 @@ static int run_forced(int which) {
   __real_pthread_create(&th, NULL, idle_client, &c);
   { int w = 0; while (!c.ok && w++ < sp(10000)) usleep(1000); }
   usleep(100000);
-  if (which == 4) {
+  if (which == 5) {
+    /* the peer of the idle client disconnects while rfbNewFramebuffer is between its locking and its unlocking pass */
+    uint32_t *fb2 = (uint32_t *)calloc(W * H, 4); int ended0;
+    phase("newfb", 15);
+    ended0 = g_ended;
+    g_force = 5;
+    LIBCALL(rfbNewFramebuffer(S, (char *)fb2, W, H, 8, 3, 4));
+    g_force = 0;
+    stop = 1; __real_pthread_join(th, NULL);
+    { int w = 0; while (g_ended - ended0 < 2 && w++ < sp(3000)) usleep(1000); }   /* clientOutput and clientInput of that client */
+    printf("presult mode=newfbgone client_threads_ended=%d gone=%d bad_unlock=%d held_at_return=%d misuse=%s\n", g_ended - ended0, g_gone, g_bad_unlock, g_held_at_return, misuse_tok());
+    fflush(stdout);
+    phase("shutdown", 15);
+    LIBCALL(rfbShutdownServer(S, TRUE));
+    alarm(0);
+    printf("result hang=0 forced=newfbgone new=%d gone=%d bad_unlock=%d held_at_return=%d misuse=%s\n", g_new, g_gone, g_bad_unlock, g_held_at_return, misuse_tok());
+  } else if (which == 4) {
     phase("shutdown", 10);
     g_force = 4;
     LIBCALL(rfbShutdownServer(S, TRUE));
     g_force = 0; alarm(0);
     stop = 1; __real_pthread_join(th, NULL);
-    printf("result hang=0 forced=shutdownjoin new=%d gone=%d\n", g_new, g_gone);
+    printf("result hang=0 forced=shutdownjoin new=%d gone=%d bad_unlock=%d held_at_return=%d misuse=%s\n", g_new, g_gone, g_bad_unlock, g_held_at_return, misuse_tok());
   } else if (which == 1) {
     phase("shutdown", 8);
     g_force = 1;
     LIBCALL(rfbShutdownServer(S, TRUE));
     g_force = 0; alarm(0);
     stop = 1; __real_pthread_join(th, NULL);
-    printf("result hang=0 forced=lostwakeup new=%d gone=%d\n", g_new, g_gone);
+    printf("result hang=0 forced=lostwakeup new=%d gone=%d bad_unlock=%d held_at_return=%d misuse=%s\n", g_new, g_gone, g_bad_unlock, g_held_at_return, misuse_tok());
   } else {
     rfbClientIteratorPtr it; rfbClientPtr cl;
     phase("iterate", 8);
@@ -746,7 +924,8 @@ out:
   { int w = 0; while (g_gone < g_new && w++ < sp(2000)) usleep(500); }
   LIBCALL(rfbScreenCleanup(S));
   alarm(0);
-  printf("result hang=0 mode=phases phases=%d phasefails=%d failed=[%s] new=%d gone=%d\n", nph, fails, failtxt, g_new, g_gone);
+  printf("result hang=0 mode=phases phases=%d phasefails=%d failed=[%s] new=%d gone=%d bad_unlock=%d held_at_return=%d misuse=%s\n", nph, fails, failtxt, g_new, g_gone, g_bad_unlock, g_held_at_return, misuse_tok());
+  print_pairs();
   free(fb);
   return 0;
 }
@@ -830,7 +1009,8 @@ static int run_policy(unsigned seed, int ypct, int always, int never, int dd, in
   LIBCALL(rfbScreenCleanup(S));
   alarm(0);
   close(fa); close(fb_); if (fc >= 0) close(fc);
-  printf("result hang=0 mode=policy new=%d gone=%d dupgone=%d\n", g_new, g_gone, g_dupgone);
+  printf("result hang=0 mode=policy new=%d gone=%d dupgone=%d bad_unlock=%d held_at_return=%d misuse=%s\n", g_new, g_gone, g_dupgone, g_bad_unlock, g_held_at_return, misuse_tok());
+  print_pairs();
   free(fbuf);
   return 0;
 }
@@ -945,7 +1125,8 @@ done:
   phase("cleanup", 25);
   LIBCALL(rfbScreenCleanup(S));
   alarm(0);
-  printf("result hang=0 mode=fragment new=%d gone=%d\n", g_new, g_gone);
+  printf("result hang=0 mode=fragment new=%d gone=%d bad_unlock=%d held_at_return=%d misuse=%s\n", g_new, g_gone, g_bad_unlock, g_held_at_return, misuse_tok());
+  print_pairs();
   free(fbuf);
   return 0;
 }
@@ -962,6 +1143,9 @@ static void run_case(char *line) {
   else if (!strncmp(line, "force iteruaf", 13)) forced = 2;
   else if (!strncmp(line, "force shutdownjoin", 18)) forced = 4;
   else if (!strncmp(line, "force cursor", 12)) forced = 3;
+  else if (!strncmp(line, "force newfbgone", 15)) forced = 5;
+  else if (!strncmp(line, "force newfbaccept", 17)) forced = 6;
+  else if (!strncmp(line, "force eintr", 11)) forced = 7;
   sscanf(line, "stress %u %d %d %d %d %d %d %d", &seed, &y, &a, &b, &c, &d, &e, &f);
   fflush(stdout);
   pid = fork();
